@@ -76,7 +76,7 @@ class Evaluator:
             raise Unsupported(e)
         if isinstance(e, ast.Subscript):
             base = self.ev(e.value)
-            if isinstance(base, (tuple, str, bytes)):
+            if isinstance(base, (tuple, str, bytes, bytearray)):
                 if isinstance(e.slice, ast.Slice):
                     lo = self.ev(e.slice.lower) if e.slice.lower is not None else None
                     hi = self.ev(e.slice.upper) if e.slice.upper is not None else None
@@ -103,12 +103,12 @@ class Evaluator:
             if isinstance(base, Obj) and e.attr in base.__dict__:
                 return base.__dict__[e.attr]
             raise Unsupported(e, "unbound attribute")
-        if isinstance(e, ast.Call) and isinstance(e.func, ast.Name) and e.func.id in ("len", "max", "min", "abs", "int", "bool", "sum", "any", "all", "str", "tuple", "list", "range", "bytes", "divmod") \
+        if isinstance(e, ast.Call) and isinstance(e.func, ast.Name) and e.func.id in ("len", "max", "min", "abs", "int", "bool", "sum", "any", "all", "str", "tuple", "list", "range", "bytes", "divmod", "bytearray") \
                 and all(k.arg == "default" for k in e.keywords):
             args = [self.ev(a) for a in e.args]
             kw = {k.arg: self.ev(k.value) for k in e.keywords}
             try:
-                return {"len": len, "max": max, "min": min, "abs": abs, "int": int, "bool": bool, "sum": sum, "any": any, "all": all, "str": str, "tuple": tuple, "list": tuple, "range": range, "bytes": bytes, "divmod": divmod}[e.func.id](*args, **kw)
+                return {"len": len, "max": max, "min": min, "abs": abs, "int": int, "bool": bool, "sum": sum, "any": any, "all": all, "str": str, "tuple": tuple, "list": tuple, "range": range, "bytes": bytes, "divmod": divmod, "bytearray": bytearray}[e.func.id](*args, **kw)
             except Exception:
                 raise Unsupported(e)
         if isinstance(e, (ast.Tuple, ast.List, ast.Set)):
@@ -170,6 +170,8 @@ class Evaluator:
             return True
         if isinstance(e, ast.BinOp):
             a, b = self.ev(e.left), self.ev(e.right)
+            if isinstance(e.op, ast.Add) and isinstance(a, (bytes, bytearray)) and isinstance(b, (bytes, bytearray)):
+                return bytes(a) + bytes(b)
             if isinstance(e.op, ast.Add) and type(a) is type(b) and isinstance(a, (bytes, str, tuple)):
                 return a + b
             if isinstance(e.op, ast.Mult) and isinstance(a, (bytes, str, tuple)) and isinstance(b, int) and 0 <= b < 10000:
@@ -191,6 +193,8 @@ class Evaluator:
                 return a & b
             if isinstance(op, ast.BitOr):
                 return a | b
+            if isinstance(op, ast.BitXor):
+                return a ^ b
             if isinstance(op, ast.FloorDiv) and b != 0:
                 return a // b
             if isinstance(op, ast.Mod) and b != 0:
@@ -340,6 +344,19 @@ class Evaluator:
             if isinstance(tgt, ast.Attribute) and st.value is not None:
                 self.env[ast.unparse(tgt)] = self.ev(st.value)
                 return None
+            if isinstance(tgt, ast.Subscript) and st.value is not None:
+                base = self.ev(tgt.value)
+                if isinstance(base, bytearray):
+                    val = self.ev(st.value)
+                    if isinstance(tgt.slice, ast.Slice):
+                        lo = self.ev(tgt.slice.lower) if tgt.slice.lower is not None else None
+                        hi = self.ev(tgt.slice.upper) if tgt.slice.upper is not None else None
+                        if tgt.slice.step is not None or not isinstance(val, (bytes, bytearray)):
+                            raise Unsupported(st)
+                        base[lo:hi] = val
+                    else:
+                        base[self.ev(tgt.slice)] = val
+                    return None
             raise Unsupported(st)
         if isinstance(st, ast.AugAssign):
             k = st.target.id if isinstance(st.target, ast.Name) else ast.unparse(st.target) if isinstance(st.target, ast.Attribute) else None
